@@ -478,3 +478,131 @@ Proof.
     apply (calc_gradient_length (count_true mask) (restrict_free mask x) (map (restrict_rdata mask) rs) failed w e merge g);
     rewrite E; reflexivity.
 Qed.
+
+(* ---- merged estimation, identical realizations, JOINT rank -------------------------------------------------------- *)
+(* no single realization needs enough successful perturbations: it suffices that the stack of the difference
+   matrices of all realizations with positive weight has full column rank *)
+Theorem merged_identical_joint n x rs ws a g : length x = n -> length a = n ->
+  (forall r w, In (r, w) (combine rs ws) -> 0 <= w /\ exists c, affine_on n x a c r) ->
+  (forall d, length d = n ->
+     (forall r w, In (r, w) (combine rs ws) -> 0 < w -> vz (mv (fst (system_of x r)) d)) -> vz d) ->
+  estimate_merged n x rs ws = Some g -> veq g a.
+Proof.
+  intros Hx Ha Hall Hrank H. unfold estimate_merged in H.
+  apply wlstsq_sound in H as [N [D [HD [Hacc ->]]]].
+  apply accept_spec in Hacc as [HN [Hwf Hres]].
+  apply unscale_veq; [exact HD|].
+  apply (wnormal_identical_joint n (scale_rhs D (merged_systems x rs ws)) (qscale D a) N HN).
+  - rewrite length_qscale. exact Ha.
+  - exact Hwf.
+  - intros s Hs. apply in_scale_rhs in Hs as [s0 [Hs0 ->]].
+    apply in_merged_systems in Hs0 as [r [w [Hin [_ ->]]]]. cbn [fst snd].
+    destruct (Hall r w Hin) as [Hw [c Haff]]. split; [exact Hw|].
+    destruct (system_of x r) as [A b] eqn:E. cbn [fst snd].
+    destruct (system_of_affine n x a c r A b Hx Haff E) as [_ [_ Hba]].
+    rewrite mv_qscale. apply qscale_veq; [reflexivity | exact Hba].
+  - intros d Hd Hz. apply Hrank; [exact Hd|]. intros r w Hin Hpos.
+    apply (Hz (w, (fst (system_of x r), qscale D (snd (system_of x r))))); [|exact Hpos].
+    unfold scale_rhs. apply in_map_iff. exists (w, system_of x r). split; [reflexivity|].
+    apply merged_systems_in; [exact Hin | lra].
+  - exact Hres.
+Qed.
+
+(* ---- variable scaling ------------------------------------------------------------------------------------------------- *)
+Lemma length_vmul (a b : vec) : length a = length b -> length (vmul a b) = length a.
+Proof. revert b; induction a as [|x a IH]; intros [|y b] H; cbn in *; try congruence. f_equal; apply IH; congruence. Qed.
+Lemma length_from_optimizer s o y : length s = length y -> length o = length y -> length (from_optimizer s o y) = length y.
+Proof. intros Hs Ho. unfold from_optimizer. rewrite length_vadd; rewrite length_vmul; congruence. Qed.
+
+(* f (from_optimizer y) for an affine f with slope a is affine in y with slope s (.) a and offset a . o + c *)
+Lemma rdot_from_optimizer (s o a y : vec) : length s = length y -> length o = length y -> length a = length y ->
+  rdot a (from_optimizer s o y) == rdot (scale_slope s a) y + rdot a o.
+Proof.
+  unfold from_optimizer, scale_slope.
+  revert s o a; induction y as [|v y IH]; intros [|sv s] [|ov o] [|av a] Hs Ho Ha; cbn in Hs, Ho, Ha; try discriminate.
+  - cbn. ring.
+  - cbn [vmul vadd]. rewrite !rdot_cons, radd_correct, IH by congruence. ring.
+Qed.
+
+Theorem affine_on_scaled n s o x a c r : length s = n -> length o = n -> length x = n ->
+  Forall (fun p => length p = n) (r_X r) ->
+  affine_on n (from_optimizer s o x) a c (map_rdata_X (from_optimizer s o) r) ->
+  affine_on n x (scale_slope s a) (rdot a o + c) r.
+Proof.
+  intros Hs Ho Hx HX [Ha [H0 HF]]. unfold map_rdata_X in *. cbn [r_X r_f0 r_fp] in *.
+  split; [unfold scale_slope; rewrite length_vmul; congruence|]. split.
+  - intros v Hv. rewrite (H0 v Hv), rdot_from_optimizer by congruence. ring.
+  - revert HF HX. generalize (r_fp r). induction (r_X r) as [|p X IH]; intros fp HF HX; cbn [map] in HF.
+    + inversion HF; subst. constructor.
+    + inversion HF as [|? q ? fp' [_ Hq] HF' E1 E2]; subst. inversion HX as [|? ? Hp HX']; subst.
+      constructor; [|apply IH; assumption]. split; [exact Hp|].
+      intros v Hv. rewrite (Hq v Hv), rdot_from_optimizer by congruence. ring.
+Qed.
+
+(* ---- the matrix handed to the optimizer ----------------------------------------------------------------------------- *)
+(* restricted to the free columns, the re-expanded gradients are the estimates of the restricted problem again:
+   the optimizer never sees a fixed variable's column, and sees the free ones unchanged and in order *)
+Theorem optimizer_matrix_expand mask gw gcs :
+  length gw = count_true mask -> Forall (fun g => length g = count_true mask) gcs ->
+  optimizer_matrix mask (expand_with_zeros mask gw) (map (expand_with_zeros mask) gcs) = gw :: gcs.
+Proof.
+  intros Hw Hc. unfold optimizer_matrix, restrict_free. rewrite gather_expand by exact Hw. f_equal.
+  induction Hc as [|g gcs Hg _ IH]; [reflexivity|]. cbn [map]. rewrite gather_expand by exact Hg. f_equal. exact IH.
+Qed.
+Lemma optimizer_matrix_shape mask wg cons : length wg = length mask -> Forall (fun g => length g = length mask) cons ->
+  length (optimizer_matrix mask wg cons) = S (length cons) /\
+  Forall (fun row => length row = count_true mask) (optimizer_matrix mask wg cons).
+Proof.
+  intros Hw Hc. unfold optimizer_matrix, restrict_free. split; [cbn; rewrite map_length; reflexivity|].
+  constructor; [apply gather_length, Hw|].
+  induction Hc as [|g cons Hg _ IH]; [constructor|]. cbn [map]. constructor; [apply gather_length, Hg | exact IH].
+Qed.
+
+(* ---- standard deviation zero: all values that carry weight coincide, and sigma * grad sigma vanishes, so the
+   zeros the estimator returns for sigma = 0 are consistent with the chain-rule expression ------------------------- *)
+Lemma wvsum_scaled_diff n (w f : vec) (m : Q) (gs : list vec) : length f = length w -> length gs = length w ->
+  Forall (fun g => length g = n) gs ->
+  Forall2 (fun wi fi => wi * (fi - m) == 0) w f ->
+  veq (wvsum n (vmul f w) gs) (qscale m (wvsum n w gs)).
+Proof.
+  intros Hf Hg Hn H. revert gs Hg Hn. induction H as [|wi fi w f Hwf _ IH]; intros [|g gs] Hg Hn; cbn in Hg; try discriminate.
+  - cbn [vmul wvsum]. symmetry. apply qscale_vzero.
+  - inversion Hn as [|? ? Hgn Hn']; subst. cbn [vmul wvsum]. rewrite qscale_vadd.
+    apply vadd_veq; [|apply IH; [cbn in Hf; congruence | congruence | exact Hn']].
+    clear -Hwf. induction g as [|y g IHg]; cbn [qscale map]; constructor; [|exact IHg].
+    assert (E : fi * wi == m * wi) by lra. rewrite E. ring.
+Qed.
+Lemma rdot_sq_nonneg (f w : vec) (m : Q) : Forall (fun x => 0 <= x) w ->
+  0 <= rdot (map (fun y => rsub y m * rsub y m) f) w.
+Proof.
+  intros Hw. revert f; induction Hw as [|wi w Hwi _ IH]; intros [|fi f]; cbn [map]; try (cbn; lra).
+  rewrite rdot_cons. specialize (IH f). nra.
+Qed.
+Lemma rdot_sq_zero (f w : vec) (m : Q) : length f = length w -> Forall (fun x => 0 <= x) w ->
+  rdot (map (fun y => rsub y m * rsub y m) f) w == 0 -> Forall2 (fun wi fi => wi * (fi - m) == 0) w f.
+Proof.
+  intros Hl Hw. revert f Hl; induction Hw as [|wi w Hwi Hw IH]; intros [|fi f] Hl H; cbn in Hl; try discriminate; [constructor|].
+  cbn [map] in H. rewrite rdot_cons, rsub_correct in H.
+  pose proof (rdot_sq_nonneg f w m Hw) as Hn.
+  assert (Hs : 0 <= (fi - m) * (fi - m)) by (set (y := fi - m); nra).
+  assert (Hp : 0 <= (fi - m) * (fi - m) * wi) by (apply Qmult_le_0_compat; assumption).
+  assert (H1 : (fi - m) * (fi - m) * wi == 0) by lra.
+  assert (H2 : rdot (map (fun y => rsub y m * rsub y m) f) w == 0) by lra.
+  constructor; [|apply IH; [congruence | exact H2]].
+  destruct (Qeq_dec wi 0) as [E|E]; [rewrite E; ring|].
+  apply Qmult_integral in H1 as [H1|H1]; [|contradiction].
+  apply Qmult_integral in H1. assert (E0 : fi - m == 0) by tauto. rewrite E0. ring.
+Qed.
+
+Theorem sd_zero_variance n c (w f : vec) gs : ~ c == 0 -> length f = length w -> length gs = length w ->
+  Forall (fun g => length g = n) gs -> Forall (fun x => 0 <= x) w ->
+  wvariance c w f == 0 -> vz (sd_grad_times_sd n c w f gs).
+Proof.
+  intros Hc Hf Hg Hn Hw Hv. unfold wvariance in Hv. cbv zeta in Hv.
+  apply Qmult_integral in Hv as [Hv|Hv]; [contradiction|].
+  pose proof (rdot_sq_zero f w (wmean w f) Hf Hw Hv) as Hz.
+  pose proof (wvsum_scaled_diff n w f (wmean w f) gs Hf Hg Hn Hz) as E.
+  unfold sd_grad_times_sd.
+  apply veq_vsub_vz in E.
+  clear -E. induction E as [|x l Hx _ IH]; cbn [qscale map]; constructor; [rewrite Hx; ring | exact IH].
+Qed.
